@@ -88,7 +88,8 @@ def coq_case(case, expansions, fn="run_case"):
                                    core.coq_list([core.coq_bool(lg["global_repo"]) for lg in case["langs"]]),
                                    core.coq_list([str(x) for x in lo]), core.coq_list(files), core.coq_list(ops))
     builtins = ["(mkFile [] %s []%%N false false false)" % c_names(b) for b in case["builtins"]]
-    return "%s %s %s %s %s %s" % (fn, core.coq_bool(case["global_repo"]), core.coq_bool(case["provider"] == "rrel"),
+    fn = {"run_case": "run_case_u", "run_case_hash": "run_case_u_hash"}.get(fn, fn)
+    return "%s %s %s %s %s %s %s" % (fn, core.coq_bool(case["provider"].startswith("plain")), core.coq_bool(case["global_repo"]), core.coq_bool(case["provider"] == "rrel"),
                                         core.coq_list(builtins), core.coq_list(files), core.coq_list(ops))
 
 
@@ -133,6 +134,7 @@ def oracle(case, out):
     bad = []
     exp = out["expansions"]
     lazy = case["provider"] == "rrel"
+    plain = case["provider"].startswith("plain")
     glob = case["global_repo"]
     ver = [0] * len(case["files"])
     tok_ver = {}            # token -> version of its file when it was created
@@ -259,7 +261,9 @@ def oracle(case, out):
                             if t in tok_ver or t.startswith("b"):
                                 es = content(t)["elems"]
                                 if name in es:
-                                    want_t = [t, es.index(name)]
+                                    want_t = [t, es.index(name)]       # the FIRST element of that name
+                                    if plain and es.count(name) > 1:
+                                        bad.append(("C17", "PlainName resolved reference %d (%s) of %s although %s defines the name twice" % (j, name, m["tok"], t), k))
                                     break
                         got = m["targets"][j] if j < len(m["targets"]) else None
                         if got != want_t:
@@ -292,7 +296,11 @@ def oracle(case, out):
                                 visible.update(v["elems"])
                     for b in case["builtins"]:
                         visible.update(b)
-                    if all(x in visible for x in fv["refs"]):
+                    dup = set()
+                    if plain:
+                        srcs = [fv["elems"]] + [v["elems"] for st in stmts_of(g) for h in st for v in case["files"][h]["versions"]] + list(case["builtins"])
+                        dup = {x for es in srcs for x in es if es.count(x) > 1}
+                    if all(x in visible for x in fv["refs"]) and not any(x in dup for x in fv["refs"]):
                         why = "every reference of file %s is resolvable" % g
             elif kind == "nofile":
                 if not any(st == [] for i in range(len(case["files"])) for st in exp[i][ver[i]]):
@@ -531,6 +539,8 @@ def gen_case(r, n_files=None, fail=None, with_history=True):
         elems = r.sample(NAMES[:6], r.weighted([(0, 1), (1, 4), (2, 4), (3, 2)]))
         if not imports and not elems:
             elems = [r.choice(NAMES[:6])]       # a completely empty file is not a model object (out of scope)
+        if elems and r.chance(0.12):
+            elems = elems + [r.choice(elems)]   # a name defined twice: PlainName refuses it ('not unique'), FQN / RREL take the first
         files.append({"path": p, "versions": [{"imports": imports, "elems": elems, "refs": []}]})
     for i, f in enumerate(files):
         v = f["versions"][0]
